@@ -28,12 +28,14 @@ TStart == IsEvent("Start") /\ StartInst(Ev.n, Ev.inst, Ev.input) /\ Post(Ev.n)
 TAlarm == IsEvent("Alarm") /\ Alarm(Ev.n, Ev.to) /\ Post(Ev.n)
 ByzValidI(m) == BasicOK(Strip(m)) /\ JustShapeOK(Strip(m)) /\ (m.j # NoJ => JustOKI(m.i, m.j))
 TReceive == /\ IsEvent("Receive")
-            /\ (ToM(Ev.m).s \in B => ByzValidI(ToM(Ev.m)))
+            /\ (ToM(Ev.m).s \in B => (Ev.bad \/ ByzValidI(ToM(Ev.m))))
             /\ LET m == ToM(Ev.m)
                    n == Ev.n IN
-               \/ DropOld(n, m)
-               \/ Enqueue(n, m)
-               \/ (phase[n] \notin {"INITIAL", "TERMINATED"} /\ Receive(n, m, Ev.to) /\ Post(n))
+               IF Ev.bad /\ Ev.errclass = "latebinding"
+               THEN UNCHANGED vars    \* foreign supplemental data: receiveOne returns before touching any state
+               ELSE \/ DropOld(n, m)
+                    \/ Enqueue(n, m)
+                    \/ (phase[n] \notin {"INITIAL", "TERMINATED"} /\ Receive(n, m, Ev.to) /\ Post(n))
 TReset == IsEvent("Reset")
           /\ phase' = [p \in H |-> "INITIAL"] /\ round' = [p \in H |-> 0] /\ proposal' = [p \in H |-> Bot]
           /\ value' = [p \in H |-> Bot] /\ cands' = [p \in H |-> {}] /\ timedOut' = [p \in H |-> FALSE]
